@@ -16,19 +16,22 @@ var luaOverrides = map[string]string{
 func init() {
 	checks["C38"] = &checkDef{
 		Level:       levelOther,
-		Explanation: "Symbolic execution of the real rueidislimiter AllowN/Allow/Check (limiter.go) against a Redis model that executes the real rateLimitScript text — received from the real code through its EVALSHA→EVAL fallback — in a Lua interpreter written as harness Go (harness/luasym.go.txt: lexer, parser, evaluator for the subset the repository's scripts use; numbers are symbolic 64-bit integers). Script executions are atomic in Redis, so every interleaving of concurrent callers is a sequence of script runs with unconstrained caller clocks. (a) Inductive step: arbitrary state satisfying the invariant (no window, or both keys present with the same expiry, counter ≥ 0, ghost admitted ≤ min(counter, limit)), symbolic limit, window, caller clock, server clock and n; one Check/Allow/AllowN call; assertions: one script run, ResetAtMs is the stored window end, Remaining = max(limit − requested, 0), the admitted total of the window stays ≤ limit, Check consumes nothing, a request that fits is admitted, the invariant is re-established. One step covers histories of any length and any number of callers. (b) Histories of K calls from the empty keyspace with symbolic n, clocks and server time, summing admitted units per reported window without the invariant.",
+		Explanation: "Symbolic execution of the real rueidislimiter AllowN/Allow/Check (limiter.go) against a Redis model that executes the real rateLimitScript text — received from the real code through its EVALSHA→EVAL fallback — in a Lua interpreter written as harness Go (harness/luasym.go.txt: lexer, parser, evaluator for the subset the repository's scripts use; numbers are symbolic 64-bit integers). Script executions are atomic in Redis, so every interleaving of concurrent callers is a sequence of script runs with unconstrained caller clocks. (a) Inductive step: arbitrary state satisfying the invariant (no window, or both keys present with the same expiry, counter ≥ 0, ghost admitted ≤ min(counter, limit)), symbolic limit, window, caller clock, server clock and n; one Check/Allow/AllowN call; assertions: one script run, ResetAtMs is the stored window end, Remaining = max(limit − requested, 0), the admitted total of the window stays ≤ limit, Check consumes nothing, a request that fits is admitted, the invariant is re-established. One step covers histories of any length and any number of callers. (b) Histories of K calls from the empty keyspace with symbolic n, clocks and server time, summing admitted units per reported window without the invariant; one reply per history may be lost after the server ran the script (the stub re-sends only commands marked retryable, as the real client does): Remaining must count every request exactly once.",
 		Assumptions: []string{"numbers below 2^50 (Lua numbers are doubles: above 2^53 integer precision is lost) and clocks below 2^44 ms", "the two keys are only written by this script (no eviction, no foreign writer)", "strconv number formatting/parsing on the Go side is replaced by placeholder-based overrides (symbolic numbers cannot be rendered digit by digit)", "the Lua interpreter and the Redis model (GET, SET PXAT, INCRBY, key expiry by the server clock) are harness code"},
 		Trusted:     []string{"harness/luasym.go.txt (Lua subset interpreter, Redis model)"},
 		Outside:     []string{"per-call custom limits (WithCustomRateLimit) mixing different limits on one identifier", "transport errors (no units are admitted when AllowN returns an error)"},
-		Bounds:      map[string]any{"quick": "inductive step (any history length); histories of 3 calls", "thorough": "inductive step; histories of 4 calls"},
+		Bounds:      map[string]any{"quick": "inductive step (any history length); histories of 3 calls; histories of 2 calls with one lost reply", "thorough": "inductive step; histories of 4 calls; 3 calls with one lost reply"},
 		specs: func(tier string) []specRef {
 			a := hsx(limiterPkg, "VerifC38_step", nil, 2000000, 3000, "negative", "newwindow", "samewindow", "admitted", "denied")
 			a.dir = "rueidislimiter"
 			a.spec.Overrides = luaOverrides
-			b := hsx(limiterPkg, "VerifC38_history", P{"calls": q(tier, int64(3), 4)}, 2000000, 3000, "admitted", "twowindows")
+			b := hsx(limiterPkg, "VerifC38_history", P{"calls": q(tier, int64(3), 4), "lost_replies": 0}, 2000000, 3000, "admitted", "twowindows")
 			b.dir = "rueidislimiter"
 			b.spec.Overrides = luaOverrides
-			return []specRef{a, b}
+			c := hsx(limiterPkg, "VerifC38_history", P{"calls": q(tier, int64(2), 3), "lost_replies": 1}, 2000000, 3000, "admitted", "lostreply")
+			c.dir = "rueidislimiter"
+			c.spec.Overrides = luaOverrides
+			return []specRef{a, b, c}
 		},
 	}
 }
